@@ -27,6 +27,7 @@ type scriptServer struct {
 	next  []byte // bytes to send to the next connection (nil: close at once)
 	mode  string // "reply", "reset", "short"
 	conns int
+	onAccept func() // called (under mu) for every accepted connection, in accept order
 }
 
 func newScriptServer() *scriptServer {
@@ -43,6 +44,9 @@ func newScriptServer() *scriptServer {
 			}
 			s.mu.Lock()
 			s.conns++
+			if s.onAccept != nil {
+				s.onAccept()
+			}
 			data, mode := s.next, s.mode
 			s.mu.Unlock()
 			go func() {
